@@ -320,6 +320,32 @@ def argument(ctx, cfg, fs):
             detail = 'environment lookup is %sreachable from the Err arm and %sreachable from the Ok(Some) arm of take_arg' % (
                 '' if set(envb) & from_err else 'not ', '' if set(envb) & from_some else 'not ')
     ctx.ob('A.argument-precedence', 'take_argument:env-only-when-absent', ok, detail, where=body.where(envb[0]) if envb else body.where(), cfg=cfg)
+    # a value that came from the environment belongs to no position of the command line: `current` is cleared before it is handed on, so
+    # that a failed conversion / validation of it is reported as such and not blamed on the word another parser consumed last
+    env_calls = [body.call_at(e) for e in envb if body.call_at(e) is not None]
+    def is_none(i, k, st):
+        if st['rv']['k'] == 'agg':
+            return st['rv'].get('variant') == 'None'
+        if st['rv']['k'] == 'use':
+            rs = provenance(body, st['rv']['op'], i, k, through=None)
+            return bool(rs) and all(r.kind == 'agg' and r.extra.get('variant') == 'None' for r in rs)
+        return False
+    cleared = [i for i, k, st in body.stmts() if st['k'] == 'assign' and place_fields(st['lhs'])[-1:] == ['current'] and is_none(i, k, st)]
+    oks = [i for i, k, st in body.stmts() if st['k'] == 'assign' and st['lhs'] == [0, []] and st['rv']['k'] == 'agg' and st['rv'].get('variant') == 'Ok']
+    leak = []; n_env_ok = 0
+    for c in env_calls:
+        sw_ = switch_on_call(body, c)
+        t_ = sw_.target('Some') if (sw_ is not None and sw_.kind == 'enum') else None
+        if t_ is None:
+            continue
+        from_env = reachable_edges(body, t_, avoid=[c.bb])
+        unc = reachable_edges(body, t_, avoid=[c.bb] + cleared)
+        for o in oks:
+            if o in from_env:
+                n_env_ok += 1
+                if o in unc: leak.append(body.where(o))
+    ctx.ob('A.argument-precedence', 'take_argument:env-value-has-no-position', n_env_ok > 0 and not leak,
+           'the Ok(value) reached from a successful environment lookup (%d site(s)) comes after `args.current = None`: %s' % (n_env_ok, leak or 'ok'), where=body.where(), cfg=cfg)
     cov = env_coverage(fs, body)
     ctx.ob('A.argument-precedence', 'take_argument:every-declared-variable', bool(cov) and all(v == 'all' for (_, v, _) in cov),
            'every variable declared with env() is consulted, in declaration order, until one is set: %s' % [d for (_, _, d) in cov], where=body.where(), cfg=cfg)
